@@ -263,6 +263,47 @@ fn spec_for(c: &PsoCase, iters: u32) -> Spec<RealP> {
                         cond,
                     ))
                     .build())
+            } else if c.assembly == 8 {
+                // as 7, but the second phase runs in a scope of its own: its components are initialised when the scope is
+                // entered, i.e. after the first phase has already recorded a best-so-far individual
+                use mahf::lens::ValueOf;
+                let swarm = pso::pso::<RealP, Global>(
+                    pso::Parameters {
+                        particle_init: ParticleSwarmInit::new(c.v_max)?,
+                        particle_update: ParticleVelocitiesUpdate::new(c.start_w, c.c1, c.c2, c.v_max)?,
+                        constraints: boundary::Saturation::new(),
+                        inertia_weight_update: Some(mahf::components::mapping::Linear::new(c.start_w, c.end_w, ValueOf::<Progress<ValueOf<Iterations>>>::new(), ValueOf::<W>::new())),
+                        state_update: ParticleSwarmUpdate::new(),
+                    },
+                    cond,
+                );
+                Ok(mahf::Configuration::builder()
+                    .do_(mahf::components::initialization::RandomSpread::new(3 * c.n))
+                    .evaluate()
+                    .update_best_individual()
+                    .scope_(|b| b.do_(mahf::components::initialization::RandomSpread::new(c.n)).evaluate().do_(swarm))
+                    .build())
+            } else if c.assembly == 7 {
+                // the swarm of a second search phase: sampled on top of the (larger, evaluated) population of a first
+                // phase, whose best individual is already the run's best-so-far record
+                use mahf::lens::ValueOf;
+                Ok(mahf::Configuration::builder()
+                    .do_(mahf::components::initialization::RandomSpread::new(3 * c.n))
+                    .evaluate()
+                    .update_best_individual()
+                    .do_(mahf::components::initialization::RandomSpread::new(c.n))
+                    .evaluate()
+                    .do_(pso::pso::<RealP, Global>(
+                        pso::Parameters {
+                            particle_init: ParticleSwarmInit::new(c.v_max)?,
+                            particle_update: ParticleVelocitiesUpdate::new(c.start_w, c.c1, c.c2, c.v_max)?,
+                            constraints: boundary::Saturation::new(),
+                            inertia_weight_update: Some(mahf::components::mapping::Linear::new(c.start_w, c.end_w, ValueOf::<Progress<ValueOf<Iterations>>>::new(), ValueOf::<W>::new())),
+                            state_update: ParticleSwarmUpdate::new(),
+                        },
+                        cond,
+                    ))
+                    .build())
             } else if c.assembly == 6 {
                 // the loop runs while an evaluation budget or the iteration bound allows it: the iteration
                 // bound (which reports the loop's progress) is the second operand of an `or`
@@ -321,7 +362,7 @@ pub fn cases(thorough: bool) -> Vec<PsoCase> {
                     if !thorough && sw == 1.2 && vmax != width {
                         continue;
                     }
-                    for assembly in 0..7u8 {
+                    for assembly in 0..9u8 {
                         if assembly > 0 && (sw != 0.9 || (!thorough && vmax != width)) {
                             continue;
                         }
